@@ -37,6 +37,12 @@ impl TimeZone {
         let mut parsed = Parsed::new();
         parse(&mut parsed, s, StrftimeItems::new(format))?;
 
+        // A Unix timestamp (`%s`) names an instant by itself: resolving it through the
+        // zone's wall-clock time fails for instants in a repeated (fall-back) hour.
+        if parsed.timestamp().is_some() {
+            return parsed.to_datetime_with_timezone(&Utc);
+        }
+
         match self {
             Self::Local => {
                 let local_datetime = parsed.to_datetime_with_timezone(&Local)?;
